@@ -67,6 +67,9 @@ func TestC15(t *testing.T) {
 			faults = append(faults, DivFault{At: -1, Kind: "outside", Trigger: fmt.Sprintf("listlen=%d", m)})
 		}
 		faults = append(faults, DivFault{At: -1, Kind: "plus1", Trigger: "after-H"}, DivFault{At: -1, Kind: "minus1", Trigger: "after-H"})
+		if base.isV1() { // a division that goes wrong once GracefulStop() has been requested
+			faults = append(faults, DivFault{At: -1, Kind: "plus1", Trigger: "after-graceful"}, DivFault{At: -1, Kind: "double", Trigger: "after-graceful"}, DivFault{At: -1, Kind: "minus1", Trigger: "after-graceful"})
+		}
 		for _, f := range faults {
 			if r.Stopped() {
 				return
